@@ -35,6 +35,10 @@ Lemma mopidy_audio_never_waits_lemma :
   forallb (fun s => negb (comp_eqb (s_dst s) Main || comp_eqb (s_dst s) GstThread)) edges = true.
 Proof. vm_compute. split; reflexivity. Qed.
 
+(* the GstThread -> Core callback site waits without a timeout (finite check) *)
+Lemma mopidy_callback_unbounded_lemma : callback_unbounded_b sites = true.
+Proof. vm_compute. reflexivity. Qed.
+
 Theorem mopidy_no_deadlock_lemma :
   forall (comp_of : actor -> comp) (code_of : actor -> hid -> list instr),
     (forall a h t h', In (ICall t h') (code_of a h) ->
@@ -52,6 +56,7 @@ Qed.
 (* the end-of-track callback: a GStreamer thread calling into the core is blocked until the
    core's own thread has run the handler to completion *)
 Theorem mopidy_callback_served_by_core_lemma :
+  callback_unbounded_b sites = true /\
   forall (comp_of : actor -> comp) (code_of : actor -> hid -> list instr),
     (forall a h t h', In (ICall t h') (code_of a h) ->
                       edge_in_b edges (comp_of a) (comp_of t) = true) ->
@@ -62,6 +67,7 @@ Theorem mopidy_callback_served_by_core_lemma :
                     l = LStep c /\
                     exists fr, a_frame (s c) = Some fr /\ f_reply fr = Some g /\ f_code fr = []).
 Proof.
+  split; [exact mopidy_callback_unbounded_lemma|].
   intros comp_of code_of Hcode sched s Hrun g c _ _ Hw.
   eapply (call_served_by_callee_lemma edges mopidy_rank); try eassumption.
   exact mopidy_edges_ranked_lemma.
